@@ -151,3 +151,17 @@ Example offer_2 : box_offer (Some (bx 0 [] [mk_tick 1 2; mk_tick 3 4] 0 None)) (
   = GOk (Some (bx 0 [] [mk_tick 3 4; mk_tick 5 6] 1 None), tt). Proof. run. Qed.
 Example pin_1 : box_pin (Some (bx 0 [] [] 0 (Some (mk_ctr 1)))) None = GOk (Some (bx 0 [] [] 0 None), false). Proof. run. Qed.
 Example pin_2 : box_pin (Some (bx 0 [] [] 0 None)) (Some (mk_ctr 4)) = GOk (Some (bx 0 [] [] 0 (Some (mk_ctr 4))), true). Proof. run. Qed.
+(* round 7 (t2/gen.go; go run transcript): widths 0 1 3 6 7 -1 = 0 1 3 33 331 (-1, errDeep);
+   spans 7 = {0 3} {3 3} {6 1}
+   generator (iter.Seq) as the list it yields, `if !yield(v) { return }`, bare return in the
+   generator, range over the sequence, strided loop, min *)
+Example spans_1 : spans 7 = GOk ([mk_span 0 3; mk_span 3 3; mk_span 6 1], ErrNil). Proof. run. Qed.
+Example spans_2 : spans 0 = GOk ([mk_span 0 0], ErrNil). Proof. run. Qed.
+Example spans_3 : spans 6 = GOk ([mk_span 0 3; mk_span 3 3], ErrNil). Proof. run. Qed.
+Example spans_4 : spans (-1) = GOk ([], ErrIs "errDeep"). Proof. run. Qed.
+Example widths_1 : widths 0 = GOk (0, ErrNil). Proof. run. Qed.
+Example widths_2 : widths 1 = GOk (1, ErrNil). Proof. run. Qed.
+Example widths_3 : widths 3 = GOk (3, ErrNil). Proof. run. Qed.
+Example widths_4 : widths 6 = GOk (33, ErrNil). Proof. run. Qed.
+Example widths_5 : widths 7 = GOk (331, ErrNil). Proof. run. Qed.
+Example widths_6 : widths (-1) = GOk (-1, ErrIs "errDeep"). Proof. run. Qed.
